@@ -180,6 +180,38 @@ def copy_probes():
     return P
 
 
+def fam_probes():
+    """flexible array members (6.7.2.1p18) initialised in objects with static storage (GNU extension for the initializer): every
+    element of the emitted image is read back, the object is large enough for them and the following object is intact"""
+    from cref import LONG
+    TRUE = z3.BoolVal(True)
+    P = []
+    k = 0
+    for tn, vals in [("char", [1, 2, 3, 4, 5]), ("short", [300, -2, 7]), ("int", [70000, 2, -3, 4]), ("long", [1 << 40, -5, 6]), ("unsigned char", [200, 1])]:
+        for scope in ("file", "block"):
+            k += 1
+            fn = "fm%d" % k
+            init = "{ 7, { %s } }" % ", ".join(str(v) for v in vals)
+            decl = "struct FM_%s { int n; %s a[]; };\n" % (fn, tn)
+            want = 7 * 1000003 + sum((i + 2) * v for i, v in enumerate(vals)) + 99
+            expr = "x.n * 1000003L + " + " + ".join("%d * (long)x.a[%d]" % (i + 2, i) for i in range(len(vals))) + " + after_%s" % fn
+            if tn == "unsigned char":
+                pass
+            if scope == "file":
+                pre = decl + "struct FM_%s gx_%s = %s;\nlong after_%s = 99;\n" % (fn, fn, init, fn)
+                body = "return %s;" % expr.replace("x.", "gx_%s." % fn)
+            else:
+                pre = decl + "long after_%s = 99;\n" % fn
+                body = "static struct FM_%s x = %s; return %s;" % (fn, init, expr)
+            P.append(e2.ScalarProbe("init/flexible-array/%s/%s" % (scope, tn.replace(" ", "_")), fn, LONG, [], body, (lambda w: lambda: (z3.BitVecVal(w, 64), TRUE))(want), family="init", pre=pre, max_visits=8))
+    # pointers with address constants in the flexible part
+    fn = "fmp"
+    pre = ("int arr_fmp[4]; struct FM_fmp { long n; int *a[]; };\nstruct FM_fmp gx_fmp = { 2, { arr_fmp + 1, &arr_fmp[3], arr_fmp } };\nlong after_fmp = 99;\n")
+    P.append(e2.ScalarProbe("init/flexible-array/file/pointers", fn, LONG, [], "return gx_fmp.n * 1000 + (gx_fmp.a[0] - arr_fmp) * 100 + (gx_fmp.a[1] - arr_fmp) * 10 + (gx_fmp.a[2] - arr_fmp) + after_fmp;",
+                            lambda: (z3.BitVecVal(2000 + 100 + 30 + 0 + 99, 64), TRUE), family="init", pre=pre, max_visits=8))
+    return P
+
+
 def addr_probes(tier):
     """address constants with offsets (C11 6.6p9) as initializers of static AND automatic pointer objects: the value read
     back, minus the base object's address, must be the byte offset given by the C11/psABI layout (reference table below)"""
@@ -282,7 +314,9 @@ def run(chk, tier):
     ap = addr_probes(tier)
     chk.bounds.append("initializers (E2): %d address-constant initializers (array element / member / byte-offset / string-literal / function addresses with positive and negative "
                       "offsets, in scalars, structs, arrays, designated) for static and automatic objects: value read back minus the base address equals the layout offset" % len(ap))
-    cp = cp + ap
+    fp_ = fam_probes()
+    chk.bounds.append("initializers (E2): %d objects with an initialised flexible array member (element types char/short/int/long/unsigned char/pointer; file and block scope)" % len(fp_))
+    cp = cp + ap + fp_
     e2.run_probes(chk, cp, chunk=4)
     chk.bounds.append("initializers (E2): %d shapes of automatic objects initialised from an expression of struct/union type with a symbolic payload "
                       "(whole object, element of a braced list, designated member, array elements, call result)" % len(cp))
